@@ -6,7 +6,7 @@ import ast
 import json
 import re
 
-from ..astq import body_walk, dotted, src
+from ..astq import body_walk, dotted, src, fn_calls
 from ..hashmodel import full_model
 from ..cfg import CFG
 from ..loader import Undecided
@@ -320,6 +320,32 @@ def r12_default_equality(chk: Check):
     chk.require(len(loops) == 1, chk.fkey(f, "all arguments"), "TypeConfig.__eq__ must compare every argument value", loc)
 
 
+def r13_defaults_cloned(chk: Check):
+    from . import c01
+
+    c01.r6_defaults_not_aliased(chk)
+
+
+def r14_pretasks_cross_tasks(chk: Check):
+    tree = chk.tree
+    f = tree.func("core.objects", "ConfigInformation.collect_pre_tasks")
+    pre = [ff for ff in tree.funcs.values() if ff.parent is f or (ff.cls is not None and getattr(ff.cls, "parent_func", None) is f)]
+    pre = [ff for k, ff in tree.funcs.items() if k.startswith(f.key + ".") and ff.node.name == "preprocess"]
+    chk.min_instances(len(pre), 1, "preprocess of the pre-task collecting walk")
+    for ff in pre:
+        rets = [x for x in body_walk(ff.node) if isinstance(x, ast.Return)]
+        ok = bool(rets)
+        for r_ in rets:
+            v = r_.value
+            first = v.elts[0] if isinstance(v, ast.Tuple) and v.elts else None
+            # the walk goes on through every configuration: the flag is constantly true (today: `not isinstance(config.__xpm__, Task)`, an information record is never a Task)
+            ok = ok and first is not None and src(first) in ("True", "not isinstance(config.__xpm__, Task)")
+        chk.require(ok, chk.fkey(ff, "walk crosses tasks"), f"the pre-task collection stops at some configurations ({[src(r_.value) for r_ in rets]}): the full identifier of a task must cover the pre-tasks of the "
+                    "tasks it depends on (their raw identifiers do not), otherwise downstream tasks of differently prepared upstream tasks share an identifier", chk.loc(ff.module, ff.node))
+    walker = [c for c in fn_calls(f.node) if any(k.arg == "recurse_task" and isinstance(k.value, ast.Constant) and k.value.value is True for k in c.keywords)]
+    chk.require(bool(walker), chk.fkey(f, "recurse_task"), "the pre-task collection must follow task links (recurse_task=True)", chk.loc(f.module, f.node))
+
+
 RULES = [
     ("R1", "tags are pairwise distinct single bytes below 0x20; each value kind starts with its own tag; NAME is not a value tag", r1_tags),
     ("R2", "scalar payloads are lossless (int: 64-bit integer pack, float: double, str: utf-8 of the whole text)", r2_scalars),
@@ -332,5 +358,7 @@ RULES = [
     ("R10", "argument-loop decision table: every argument the documented rule puts in the signature is hashed, for all consistent assignments of the atoms (shared walker with C02.R2, other direction)", r10_relevant_arguments_hashed),
     ("R11", "the identifier cache cannot hold a value computed before the signature was complete (shared with C01.R3: only identifiers() writes it, under _sealed)", r11_cache_not_stale),
     ("R12", "configuration equality (used by the skip-if-default rule) is exact-class and compares every argument", r12_default_equality),
+    ("R13", "declared defaults are cloned into instances: a default shared with its Argument makes `value == default` true for ever, and the parameter drops out of the signature (= C01.R6)", r13_defaults_cloned),
+    ("R14", "the pre-tasks entering the full identifier are collected through task links as well (a pre-task of an upstream task is part of what is executed)", r14_pretasks_cross_tasks),
     ("R9", "no framing conflict (FIRST/FOLLOW of variable-length constructs) outside the two domain exclusions of the property", r9_framing),
 ]
